@@ -157,6 +157,19 @@ def run_shard(spec, ctx):
             ctx.count('boundary_edges_h%d' % h, len(bnd))
             ctx.sample({'o': o, 'h': h, 'pentagons': len(seen), 'vertices': cl.n, 'directed_edges': len(edges), 'boundary_edges': len(bnd)})
         return
+    for _ in range(spec['n'] // 20):
+        h = ctx.rnd.choice((1, 2, 2, 3, 4, ctx.rnd.randint(5, 28)))
+        ds = gen.digits_pattern(ctx.rnd, h)
+        S = 0
+        for d in ds:
+            S = S * 4 + d
+        order = ORIENTS[:]
+        ctx.rnd.shuffle(order)
+        for o in order + order[:2]:
+            case = {'o': o, 'h': h, 'S': S}
+            ctx.case((o, h, S, 'perm'))
+            roundtrip(H, T, CT, S, h, o, ctx, case)
+        ctx.count('orientation_permutation_groups')
     for _ in range(spec['n']):
         o = ctx.rnd.choice(ORIENTS)
         h = ctx.rnd.randint(7, 28) if ctx.rnd.random() < 0.9 else ctx.rnd.randint(1, 28)
